@@ -1,7 +1,7 @@
 """Property id -> check function; replay of a recorded violation."""
 import json
 
-from . import eprops, framework as fw, record, c18, c17, optim
+from . import eprops, framework as fw, record, c18, c17, optim, c10
 
 CHECKS = {}
 for _p in ("C01", "C02", "C03", "C04", "C08", "C09", "C11", "C12"):
@@ -11,6 +11,8 @@ CHECKS["C17"] = c17.check
 CHECKS["C05"] = optim.check_c05
 CHECKS["C06"] = optim.check_c06
 CHECKS["C07"] = optim.check_c07
+CHECKS["C10"] = c10.check
+CHECKS["C09"] = c10.check_c09
 
 
 def replay(ctx, path):
